@@ -28,7 +28,7 @@ func genSpec(r *rand.Rand) limgen.Spec {
 }
 
 func TestCheck(t *testing.T) {
-	rt.Cases(800, 200000, func(idx int64) {
+	rt.Cases(3200, 200000, func(idx int64) {
 		r := rt.CaseRand(15, idx)
 		rt.Case()
 		spec := genSpec(r)
